@@ -85,7 +85,7 @@ def C05_idem_full : Prop :=
   ∀ d o o' : DocD, roundtrip d = .ok o → roundtrip o = .ok o' → o' = o
 
 /-- `render_load_idem_partial` in the form of `C05_idem_full` -/
-theorem render_load_idem_partial' (d o o' : DocD) (hv : Valid d) (ho : OrderedCats d) (hx : ExitsByCats d)
+theorem render_load_idem_partial_eq (d o o' : DocD) (hv : Valid d) (ho : OrderedCats d) (hx : ExitsByCats d)
     (hu : UntypedFields d) (h : roundtrip d = .ok o) (h' : roundtrip o = .ok o') : o' = o := by
   rw [render_load_idem_partial d o hv ho hx hu h] at h'
   cases h'; rfl
